@@ -24,7 +24,6 @@ from mujoco_warp._src import math as mjmath
 from mujoco_warp._src import smooth
 from mujoco_warp._src import types
 from mujoco_warp._src.types import MJ_MINVAL
-from mujoco_warp._src.types import BiasType
 from mujoco_warp._src.types import TrnType
 from mujoco_warp._src.types import vec10
 
@@ -534,11 +533,6 @@ def _resolve_dampratio(
   actuator_biasprm: wp.array2d[types.vec10],
 ):
   worldid, actid = wp.tid()
-  biastype = actuator_biastype[actid]
-
-  # only affine bias (position actuators)
-  if biastype != BiasType.AFFINE:
-    return
 
   gainprm_id = worldid % actuator_gainprm.shape[0]
   biasprm_id = worldid % actuator_biasprm.shape[0]
@@ -561,7 +555,7 @@ def _resolve_dampratio(
     sparseid = rowadr + k
     j = moment_colind_in[worldid, sparseid]
     moment = actuator_moment_in[worldid, sparseid]
-    if wp.abs(moment) > MJ_MINVAL:
+    if moment * moment > MJ_MINVAL:
       mass += dof_M0_in[worldid, j] / (moment * moment)
 
   damping = dampratio * 2.0 * wp.sqrt(kp * mass)
